@@ -55,25 +55,32 @@ def run(ctx, chk):
     ok_ret = len(s.returns) == 1 and s.returns[0][1][0] == "listobj"
     chk.ob("C11.enumeration", "load_action_list returns one locally built list", ok_ret,
            str([cn.show(t) for _, t in s.returns]), fi.module.path, nontrivial=False)
-    appends = []
+    # the produced sequence, whatever way it is written (append / extend / comprehension / helper
+    # returning a list): generators of (element, enclosing iterables, conditions), in order
+    from .shapes import list_elements
+    per_addr = {}
     if ok_ret:
         lst = s.returns[0][1]
-        for ev in s.events:
-            if ev.kind == "mcall" and ev.data["recv"] == lst:
-                appends.append(ev)
-        others = [ev for ev in appends if ev.data["name"] != "append"]
+        others = [ev for ev in s.events if ev.kind == "mcall" and ev.data["recv"] == lst
+                  and ev.data["name"] not in ("append", "extend")]
         chk.ob("C11.enumeration", "the action list is only appended to", not others,
                str([ev.data["name"] for ev in others]), fi.module.path, nontrivial=False)
-    per_addr = {}
-    for ev in appends:
-        if ev.data["name"] != "append":
-            continue
-        loops = [c[1] for c in ev.pc if c[0] == "inloop"]
-        conds = [c for c in ev.pc if c[0] not in ("inloop", "fact")]
-        iters = [cn.show(ip.loops[l]["iter"]) for l in loops]
-        obj = ev.data["args"][0] if ev.data["args"] else C(None)
-        cls = obj[1] if obj[0] == "new" else cn.show(obj)
-        per_addr.setdefault(cls, []).append((iters, conds, obj, ev))
+        gens = list_elements(ip, cn, lst)
+        if gens is None:
+            chk.undecided("C11.enumeration", "load_action_list builds its list in a way the "
+                          "analysis does not model (neither append, extend, comprehension, "
+                          "concatenation nor a helper returning such a list)", "", fi.module.path)
+            gens = []
+        locs = {}
+        for ev in s.events:
+            if ev.kind == "new":
+                locs[ev.data["obj"]] = ev
+        for obj, iters, conds in gens:
+            cls = obj[1] if obj[0] == "new" else cn.show(obj)
+            conds = [c for c in conds if c[0] not in ("inloop", "fact")]
+            ev = locs.get(obj)
+            per_addr.setdefault(cls, []).append((iters, conds, obj, ev if ev is not None
+                                                 else s.events[0]))
     AS = "list(scenario.scenario_dict['host'].keys())"
     want_iters = {"ServiceScan": [AS], "OSScan": [AS], "SubnetScan": [AS], "ProcessScan": [AS],
                   "Exploit": [AS, "scenario.scenario_dict['exploits'].items()"],
@@ -301,30 +308,73 @@ def check_mask(ctx, chk):
             chk.violation("C11.mask", f"get_action_mask calls {ev.data['cls']}.{ev.data['name']}, "
                           "which does not exist", "every call of get_action_mask raises "
                           "AttributeError", ev.loc)
+    I = "each(range(self.action_space.n))"
+    want = A(f"self.current_state[self.action_space.actions[{I}].target].discovered")
+    sem = mask_semantics(ip, cn, s)
+    if sem is None:
+        chk.ob("C11.mask", "mask has action_space.n entries", False,
+               "the returned value is neither a zeros(n) array filled in a loop nor an array built "
+               f"from a per-index comprehension: {[cn.show(t)[:200] for _, t in s.returns]}",
+               fi.module.path)
+        return
+    n_s, it, idx, cond, one, detail = sem
+    chk.ob("C11.mask", "mask has action_space.n entries", n_s == "self.action_space.n"
+           and it == "range(self.action_space.n)" and idx == I, f"length {n_s}, filled over {it} at "
+           f"index {idx}", fi.module.path)
+    chk.ob("C11.mask", "mask[i] = 1 exactly when get_action(i).target is discovered in the current "
+           "state", one and idx == I and f_equiv(cond, want), detail, fi.module.path)
+
+
+def mask_semantics(ip, cn, s):
+    """(length, iterable, index, formula of `entry is 1`, the non-zero value is 1?, description) of the
+    mask returned by get_action_mask, for the two ways of writing it: zeros(n) with a guarded store of
+    1 inside a loop over the indices, or np.array / np.asarray of a per-index comprehension."""
+    if len(s.returns) != 1:
+        return None
+    t = s.returns[0][1]
+    # ---- comprehension form
+    u = t
+    while u[0] == "mcall" and u[2] in ("reshape", "astype", "copy", "flatten", "ravel"):
+        u = u[1]
+    if u[0] == "call" and u[1] in ("numpy.array", "numpy.asarray", "numpy.fromiter") and u[2]:
+        c = u[2][0]
+        if c[0] == "call" and c[1] in ("builtins.list", "builtins.tuple") and c[2]:
+            c = c[2][0]
+        if c[0] == "comp" and c[1] in ("list", "gen") and len(c[3]) == 1 and not c[3][0][2]:
+            lid, itr, _ = c[3][0]
+            el = c[2][0]
+            it_s = cn.show(itr)
+            n_s = cn.show(itr[2][0]) if itr[0] == "call" and itr[1] == "builtins.range" \
+                and len(itr[2]) == 1 else "?"
+            idx = f"each({it_s})"
+            if el[0] == "call" and el[1] in ("builtins.int", "builtins.bool") and len(el[2]) == 1:
+                cond, one = cn.formula(el[2][0]), True
+            elif el[0] == "phi" and el[2] in (C(1), C(True)) and el[3] in (C(0), C(False)):
+                cond, one = cn.formula(el[1]), True
+            elif el[0] == "phi" and el[3] in (C(1), C(True)) and el[2] in (C(0), C(False)):
+                cond, one = f_not(cn.formula(el[1])), True
+            else:
+                return None
+            return n_s, it_s, idx, cond, one, f"array of [{cn.show(el)[:200]} for {it_s}]"
+        return None
+    # ---- zeros + guarded store form
     zs = [ev for ev in s.events if ev.kind == "call" and ev.data["fname"] == "numpy.zeros"]
-    ok = len(zs) == 1 and cn.show(zs[0].data["args"][0]) == "self.action_space.n"
-    chk.ob("C11.mask", "mask has action_space.n entries", ok,
-           str([cn.show(z.data["result"]) for z in zs]), fi.module.path)
+    if len(zs) != 1 or cn.norm(t)[0] != "zeros":
+        return None
+    n_s = cn.show(zs[0].data["args"][0])
     sets = [ev for ev in s.events if ev.kind == "store" and ev.data["target"] == "sub"
             and cn.norm(ev.data["base"])[0] == "zeros"]
-    ok = len(sets) == 1
-    detail = f"{len(sets)} store(s) into the mask"
-    if ok:
-        ev = sets[0]
-        loops = [c[1] for c in ev.pc if c[0] == "inloop"]
-        it = cn.show(ip.loops[loops[0]]["iter"]) if loops else "?"
-        idx = cn.show(ev.data["idx"])
-        conds = [c for c in ev.pc if c[0] not in ("inloop", "fact") and c[0] != "istype"
-                 and not (c[0] == "call" and c[1] == "builtins.isinstance")]
-        cond = cn.conj(tuple(conds))
-        I = "each(range(self.action_space.n))"
-        want = A(f"self.current_state[self.action_space.actions[{I}].target].discovered")
-        cs = f_show(cond)
-        ok = it == "range(self.action_space.n)" and idx == I and ev.data["value"] == C(1) and \
-            f_equiv(cond, want)
-        detail = f"mask[{idx}] := {cn.show(ev.data['value'])} over {it} when {cs[:300]}"
-    chk.ob("C11.mask", "mask[i] = 1 exactly when get_action(i).target is discovered in the current "
-           "state", ok, detail, fi.module.path)
+    if len(sets) != 1:
+        return n_s, "?", "?", ("false",), False, f"{len(sets)} store(s) into the mask"
+    ev = sets[0]
+    loops = [c[1] for c in ev.pc if c[0] == "inloop"]
+    it = cn.show(ip.loops[loops[0]]["iter"]) if len(loops) == 1 else "?"
+    idx = cn.show(ev.data["idx"])
+    conds = [c for c in ev.pc if c[0] not in ("inloop", "fact") and c[0] != "istype"
+             and not (c[0] == "call" and c[1] == "builtins.isinstance")]
+    cond = cn.conj(tuple(conds))
+    return n_s, it, idx, cond, ev.data["value"] in (C(1), C(True)), \
+        f"mask[{idx}] := {cn.show(ev.data['value'])} over {it} when {f_show(cond)[:300]}"
 
 
 def check_order(ctx, chk):
